@@ -297,9 +297,11 @@ def do_check(pid, mod, args, seed, scratch):
         f"({ev['coverage']['solver_time_s']} s); wall={wall:.0f}s",
         flush=True,
     )
-    for name, rp, detail in violations:
+    for name, rp, detail in violations[:4]:
         print(f"[{pid}] counterexample in shard {name}: {str(detail)[:600]}")
         print(f"VIOLATION property={pid} replay={rp}")
+    if len(violations) > 4:
+        print(f"[{pid}] ... and {len(violations) - 4} more reproduced counterexamples (replays/ has them all)")
     if violations:
         return EXIT_VIOLATION
     if harness_errors:
